@@ -207,6 +207,8 @@ type remoteConn struct {
 	in   []byte // received (= out_k of the observation)
 	eof  bool
 	out  []byte // written (= in_k)
+	// the dialer gave up on this connection but did not close it
+	leftOpen bool
 }
 
 func newRemoteConn(c net.Conn) *remoteConn {
@@ -262,6 +264,23 @@ func (r *remoteConn) waitEOF() {
 	r.mu.Unlock()
 }
 
+// waitEOFFor: did the dialer close the connection within d?
+func (r *remoteConn) waitEOFFor(d time.Duration) bool {
+	deadline := time.Now().Add(d)
+	for {
+		r.mu.Lock()
+		eof := r.eof
+		r.mu.Unlock()
+		if eof {
+			return true
+		}
+		if time.Now().After(deadline) {
+			return false
+		}
+		time.Sleep(time.Millisecond)
+	}
+}
+
 func (r *remoteConn) received() []byte {
 	r.mu.Lock()
 	defer r.mu.Unlock()
@@ -300,11 +319,24 @@ func (d *dialRemote) serve(r *remoteConn, kind string, k int) {
 		if !r.need(68) {
 			return
 		}
+		if kind == "wrongih" {
+			// a plaintext peer that serves another torrent: its handshake carries a different info hash. The dialer
+			// must give up AND hang up; the remote keeps its end open and watches.
+			other := append([]byte(nil), d.ih...)
+			other[0] ^= 0xff
+			r.write(btHandshakeBytes(d.peerExt, other, d.peerID))
+			if !r.waitEOFFor(400 * time.Millisecond) {
+				r.mu.Lock()
+				r.leftOpen = true
+				r.mu.Unlock()
+			}
+			return
+		}
 		r.write(d.plainReply())
 		r.waitEOF()
 		return
 	}
-	if kind == "plainpeer" || kind == "plainok" {
+	if kind == "plainpeer" || kind == "plainok" || kind == "wrongih" {
 		r.need(d.closeAfter[k])
 		return // not a plaintext handshake: a plaintext-only peer hangs up
 	}
@@ -523,7 +555,15 @@ func execDial(p mseParams, m map[string]string) string {
 		}
 	}
 	if res != "ok" {
-		return fmt.Sprintf("res=%s conns=%d in1=%s in2=%s out1=%s out2=%s", res, len(remotes), ins[0], ins[1], outs[0], outs[1])
+		left := 0
+		for _, r := range remotes {
+			r.mu.Lock()
+			if r.leftOpen {
+				left = 1
+			}
+			r.mu.Unlock()
+		}
+		return fmt.Sprintf("res=%s conns=%d in1=%s in2=%s out1=%s out2=%s left=%d", res, len(remotes), ins[0], ins[1], outs[0], outs[1], left)
 	}
 	return fmt.Sprintf("res=ok cipher=%d retried=%d conns=%d ext=%s id=%s in1=%s in2=%s out1=%s out2=%s got=%s wire=%s",
 		cipher, retried, len(remotes), hx(ext[:]), hx(id[:]), ins[0], ins[1], outs[0], outs[1], hx(got), wire)
@@ -621,7 +661,7 @@ func genPolicy(r *Rng, n int, tier string) []Case {
 		for _, enable := range []int{1, 0} {
 			for _, force := range []int{0, 1} {
 				for _, c1 := range []string{"plainpeer", "rc4first", "plainfirst", "trunc", "badsel", "garbage", "close"} {
-					for _, c2 := range []string{"plainok", "close", "refuse"} {
+					for _, c2 := range []string{"plainok", "close", "refuse", "wrongih"} {
 						xa, xb, ih := r.Bytes(20), r.Bytes(20), r.Bytes(20)
 						add(xa, xb, ih, 14+512+2+68+64+14+512+68+64,
 							fmt.Sprintf("dial via="+via+" enable=%d force=%d ih=%s ourid=%s ourext=%s pada=%s padc=%d c1=%s c2=%s padb=%s padd=%d peerid=%s peerext=%s garb=%s probe=%s",
